@@ -150,15 +150,27 @@ theorem step_batch {c : Cfg} {s s' : St} {k item p : Nat} {dep : Option Nat} (h 
       exact ⟨hc.1.1, hc.1.2, hc.2, (Option.some.inj h).symm, hd⟩
 
 theorem step_chain {c : Cfg} {s s' : St} {t : Nat} {ps : List Nat} (h : step c s (.chain t ps) = some s') :
-    s.crashed = false ∧ s.phase = .exec ∧ t = s.next ∧ (∀ p ∈ ps, s.execStart ≤ p ∧ p < s.next) ∧
-    s' = { s with next := s.next + 1, running := ⟨t, ps⟩ :: s.running, chained := ps ++ s.chained } := by
+    s.crashed = false ∧ s.phase = .exec ∧ t = s.next ∧ (∀ p ∈ ps, s.execStart ≤ p ∧ p < s.next ∧ p ∉ s.consumed) ∧
+    s' = { s with next := s.next + 1, running := ⟨t, ps⟩ :: s.running, chained := ps ++ s.chained,
+                  consumed := ps ++ s.consumed } := by
   simp only [step] at h
   split at h
   · cases h
   · rename_i hc
     simp at hc
-    simp at h
-    exact ⟨hc.1.1.1, hc.1.1.2, hc.1.2, hc.2, h.symm⟩
+    refine ⟨hc.1.1.1.1, hc.1.1.1.2, hc.1.1.2, ?_, (Option.some.inj h).symm⟩
+    intro p hp
+    have := hc.1.2 p hp
+    exact ⟨this.1, this.2.1, this.2.2⟩
+
+theorem step_chain_nodup {c : Cfg} {s s' : St} {t : Nat} {ps : List Nat} (h : step c s (.chain t ps) = some s') :
+    ps.Nodup := by
+  simp only [step] at h
+  split at h
+  · cases h
+  · rename_i hc
+    simp at hc
+    exact hc.2
 
 theorem step_fin {c : Cfg} {s s' : St} {t : Nat} {r : Res} (h : step c s (.fin t r) = some s') :
     ∃ task e, s.crashed = false ∧ s.running.find? (fun x => x.id == t) = some task ∧
@@ -578,7 +590,7 @@ theorem inv1_step {c : Cfg} {s s' : St} {l : Label} (hi : IdsOK s) (h : Inv1 c s
     obtain ⟨_, hph, rfl, hps, rfl⟩ := step_chain hs
     refine ⟨h.destFull, ?_, ?_, ?_⟩
     · intro t ht; simp at ht; rcases ht with rfl | ht
-      · simpa using fun p hp => (hps p hp).2
+      · simpa using fun p hp => (hps p hp).2.1
       · exact h.waits t ht
     · intro hd; simp [hph] at hd
     · intro _ hr; simp [hph] at hr
@@ -2082,5 +2094,72 @@ theorem RunWF.reachable {c : Cfg} {s s' : St} {ls : List Label} (hr : RunWF c s 
   induction hr with
   | nil => exact h
   | cons hwf hs _ ih => exact ih (h.step hwf hs)
+
+/-! ### one reader per promise -/
+
+/-- Every promise has at most one reader among the chain/join tasks. -/
+structure InvK (s : St) : Prop where
+  nodup : s.consumed.Nodup
+  lt : ∀ p ∈ s.consumed, p < s.next
+  chainedSub : ∀ p ∈ s.chained, p ∈ s.consumed
+
+theorem invK_step {c : Cfg} {s s' : St} {l : Label} (hi : IdsOK s) (h : InvK s) (hs : step c s l = some s') : InvK s' := by
+  cases l with
+  | go t dep =>
+    obtain ⟨_, _, rfl, rfl, _⟩ := step_go hs
+    exact ⟨h.nodup, fun p hp => Nat.lt_succ_of_lt (h.lt p hp), h.chainedSub⟩
+  | batch k item p dep =>
+    obtain ⟨_, _, rfl, rfl, _⟩ := step_batch hs
+    exact ⟨h.nodup, fun p hp => Nat.lt_succ_of_lt (h.lt p hp), h.chainedSub⟩
+  | chain t ps =>
+    have hnd := step_chain_nodup hs
+    obtain ⟨_, _, rfl, hps, rfl⟩ := step_chain hs
+    refine ⟨?_, ?_, ?_⟩
+    · rw [List.nodup_append]
+      exact ⟨hnd, h.nodup, fun a ha b hb e => (hps a ha).2.2 (e ▸ hb)⟩
+    · intro p hp
+      simp only [List.mem_append] at hp
+      rcases hp with hp | hp
+      · exact Nat.lt_succ_of_lt (hps p hp).2.1
+      · exact Nat.lt_succ_of_lt (h.lt p hp)
+    · intro p hp
+      simp only [List.mem_append] at hp ⊢
+      rcases hp with hp | hp
+      · exact Or.inl hp
+      · exact Or.inr (h.chainedSub p hp)
+  | fin t r => obtain ⟨_, _, _, _, _, _, rfl⟩ := step_fin hs; exact ⟨h.nodup, h.lt, h.chainedSub⟩
+  | idle => obtain ⟨_, _, _, rfl⟩ := step_idle hs; exact ⟨h.nodup, h.lt, h.chainedSub⟩
+  | flush rs =>
+    obtain ⟨_, _, _, rfl⟩ := step_flush hs
+    rw [flushAll_fresh s.wave s.execStart rs s.batches s hi.q_not_delivered hi.q_nodup]
+    exact ⟨h.nodup, h.lt, h.chainedSub⟩
+  | recvBlock t =>
+    obtain ⟨r, _, _, _, _, hl, rfl⟩ := step_recvBlock hs
+    rw [took_eq hi (lookup_some_mem hl)]
+    split
+    · exact ⟨h.nodup, h.lt, fun p hp => h.chainedSub p (List.mem_of_mem_erase hp)⟩
+    · exact ⟨h.nodup, h.lt, h.chainedSub⟩
+  | drain t =>
+    obtain ⟨r, _, _, _, hl, rfl⟩ := step_drain hs
+    rw [took_eq hi (lookup_some_mem hl)]; exact ⟨h.nodup, h.lt, h.chainedSub⟩
+  | idleRet => obtain ⟨_, _, _, rfl⟩ := step_idleRet hs; exact ⟨h.nodup, h.lt, h.chainedSub⟩
+  | ret =>
+    obtain ⟨_, _, rfl⟩ := step_ret hs
+    split
+    · rw [finishBatches_eq hi]; exact ⟨h.nodup, h.lt, h.chainedSub⟩
+    · exact ⟨h.nodup, h.lt, h.chainedSub⟩
+  | release t =>
+    obtain ⟨r, _, _, _, hl, rfl⟩ := step_release hs
+    rw [took_eq hi (lookup_some_mem hl)]; exact ⟨h.nodup, h.lt, h.chainedSub⟩
+  | start => obtain ⟨_, _, rfl⟩ := step_start hs; exact ⟨h.nodup, h.lt, h.chainedSub⟩
+
+theorem Reachable.invK {c : Cfg} {s : St} (h : Reachable c s) : InvK s := by
+  induction h with
+  | init =>
+    refine ⟨List.nodup_nil, ?_, ?_⟩
+    · intro p hp; exact absurd hp List.not_mem_nil
+    · intro p hp; exact absurd hp List.not_mem_nil
+  | step hr hs ih => exact invK_step hr.idsOK ih hs
+
 
 end ApiFu.C15
